@@ -79,6 +79,7 @@ def chk_prolong(c):
         mids = (m[:-1] + m[1:]) / 2
         assert np.array_equal(np.unique(kv2.kv), np.sort(np.concatenate((m, mids)))), 'uniform refine() does not bisect every span'
     P = bspline.prolongation(kv, kv2)
+    assert P.shape == (kv2.numdofs, kv.numdofs), 'prolongation has shape %r for %d -> %d functions' % (P.shape, kv.numdofs, kv2.numdofs)
     X = _pts(kv2)
     _close(bspline.collocation(kv2, X) @ P, bspline.collocation(kv, X), 'prolongation: functions differ', tol=1e-9)
 
@@ -128,14 +129,27 @@ def chk_represent(c):
     hs = hgen.build(c['spec'])
     grid = _finest_grid(hs)
     kvsF = hs.knotvectors(hs.numlevels - 1)
+    own = hs.truncate
+    # the flag a call does not pass is the space's own one (documented default) -- on both kinds of spaces
+    u = _rand_coeffs(hs.numdofs, 3)[0]
+    for flag in (False, True):
+        hs.truncate = flag
+        ref = _values(hs, u, grid, flag)
+        _close(hierarchical.HSplineFunc(hs, u).grid_eval(grid), ref, 'HSplineFunc(hs, u) on a space with truncate=%s: coefficients not read in the basis of the space' % flag)
+        _close(hs.grid_eval(u, grid), ref, 'HSpace.grid_eval(u, grid) on a space with truncate=%s' % flag)
+        _close(sum(f.grid_eval(grid) for f in hs.coeffs_to_levelwise_funcs(u)), ref, 'coeffs_to_levelwise_funcs(u) on a space with truncate=%s' % flag)
+        tp = bspline.BSplineFunc(kvsF, (hs.represent_fine() @ u).reshape(tuple(kv.numdofs for kv in kvsF)))
+        _close(tp.grid_eval(grid), ref, 'represent_fine() on a space with truncate=%s' % flag)
     for trunc in (False, True):
+        hs.truncate = not trunc          # an explicit flag overrides the one of the space
         I = hs.represent_fine(truncate=trunc)
         for u in _rand_coeffs(hs.numdofs, 1)[:3]:
             ref = _values(hs, u, grid, trunc)
             tp = bspline.BSplineFunc(kvsF, (I @ u).reshape(tuple(kv.numdofs for kv in kvsF)))
             _close(tp.grid_eval(grid), ref, 'represent_fine(truncate=%s) does not reproduce the function' % trunc)
             f = hierarchical.HSplineFunc(hs, u, truncate=trunc)
-            _close(f.grid_eval(grid), ref, 'HSplineFunc.grid_eval (truncate=%s)' % trunc)
+            _close(f.grid_eval(grid), ref, 'HSplineFunc.grid_eval (truncate=%s on a space with truncate=%s)' % (trunc, hs.truncate))
+            _close(hs.grid_eval(u, grid, truncate=trunc), ref, 'HSpace.grid_eval (truncate=%s on a space with truncate=%s)' % (trunc, hs.truncate))
             _close(f.grid_jacobian(grid), tp.grid_jacobian(grid), 'HSplineFunc.grid_jacobian (truncate=%s)' % trunc, tol=1e-8)
             if min(kv.p for kv in kvsF) >= 2:
                 _close(f.grid_hessian(grid), tp.grid_hessian(grid), 'HSplineFunc.grid_hessian (truncate=%s)' % trunc, tol=1e-7)
@@ -149,6 +163,7 @@ def chk_represent(c):
         got = np.asarray(fc.grid_eval(grid))
         assert np.iscomplexobj(got) and np.max(np.abs(got - want)) <= 1e-10 * max(1.0, np.max(np.abs(want))), \
             'HSplineFunc.grid_eval with complex coefficients (truncate=%s): imaginary part lost or wrong (max deviation %g)' % (trunc, np.max(np.abs(got - want)))
+    hs.truncate = own
 
 
 def chk_prolongate_to(c):
@@ -203,6 +218,69 @@ def chk_virtual(c):
         for cvec in _rand_coeffs(int(np.prod(shp)), 5)[:3]:
             ref = bspline.BSplineFunc(kvs0, cvec.reshape(shp)).grid_eval(grid)
             _close(_values(hs, M @ cvec[order], grid, trunc), ref, 'all virtual prolongators composed (truncate=%s, %d levels): function differs' % (trunc, L))
+
+
+def chk_represent_lv(c):
+    """represent_fine(lv, truncate, rows, restrict): for every level lv the columns are the (truncated) functions of the virtual space of
+    level lv -- the hierarchy cut at lv with the deactivated level-lv functions re-activated -- in the tensor-product basis of level lv;
+    a row selection returns exactly those rows of that matrix (restrict) resp. that matrix with the other rows zeroed"""
+    from pyiga import bspline
+    hs = hgen.build(c['spec'])
+    IA, ID = hs.active_indices(), hs.deactivated_indices()
+    rs = np.random.RandomState(7)
+    for lv in range(hs.numlevels):
+        V = hs.get_virtual_space(lv) if lv < hs.numlevels - 1 else hs
+        kvs = hs.knotvectors(lv)
+        shp = tuple(kv.numdofs for kv in kvs)
+        grid = _finest_grid(V)
+        # column order of the library: active functions of levels < lv, then active and deactivated functions of level lv
+        last = np.concatenate((IA[lv], ID[lv])).astype(int)
+        posV = {int(f): q for q, f in enumerate(np.asarray(V.active_indices()[lv]).astype(int))}
+        nlow = sum(len(IA[k]) for k in range(lv))
+        assert V.numdofs == nlow + len(last)
+        perm = list(range(nlow)) + [nlow + posV[int(f)] for f in last]
+        for trunc in (False, True):
+            hs.truncate = not trunc
+            I = hs.represent_fine(lv=lv, truncate=trunc)
+            assert I.shape == (int(np.prod(shp)), V.numdofs), 'represent_fine(lv=%d) has shape %r' % (lv, I.shape)
+            Id = I.toarray()
+            cols = sorted(set([0, V.numdofs - 1] + rs.choice(V.numdofs, size=min(V.numdofs, 4), replace=False).tolist()))
+            for j in cols + [None]:
+                u = np.eye(V.numdofs)[j] if j is not None else rs.rand(V.numdofs) - 0.4
+                uV = np.zeros(V.numdofs)
+                uV[perm] = u
+                ref = _values(V, uV, grid, trunc)
+                got = bspline.BSplineFunc(kvs, (Id @ u).reshape(shp)).grid_eval(grid)
+                _close(got, ref, 'represent_fine(lv=%d, truncate=%s) column %s is not that function of the level-%d virtual space' % (lv, trunc, j, lv))
+            N = Id.shape[0]
+            rowsets = [np.arange(N), np.array([0]), np.array([N - 1]), np.sort(rs.choice(N, size=max(1, N // 4), replace=False)),
+                       np.asarray(IA[lv]).astype(int)]
+            for rows in rowsets:
+                if len(rows) == 0:
+                    continue
+                R = hs.represent_fine(lv=lv, truncate=trunc, rows=rows, restrict=True).toarray()
+                assert R.shape == (len(rows), Id.shape[1]) and np.max(np.abs(R - Id[rows])) <= 1e-12, \
+                    'represent_fine(lv=%d, truncate=%s, rows=<%d of %d>, restrict=True) is not the row selection of the full matrix (max deviation %g)' % (
+                        lv, trunc, len(rows), N, np.max(np.abs(R - Id[rows])) if R.shape == (len(rows), Id.shape[1]) else -1)
+                Z = hs.represent_fine(lv=lv, truncate=trunc, rows=rows).toarray()
+                want = np.zeros_like(Id)
+                want[rows] = Id[rows]
+                assert Z.shape == Id.shape and np.max(np.abs(Z - want)) <= 1e-12, \
+                    'represent_fine(lv=%d, truncate=%s, rows=<%d of %d>) is not the full matrix with the other rows zeroed' % (lv, trunc, len(rows), N)
+
+
+def _near_global(base, steps, leave):
+    """refine all cells of the finest level but the last `leave[k]` ones (per axis), `steps` times"""
+    dim = base['dim']
+    n = base['n']
+    hist = []
+    m = n
+    for k in range(steps):
+        m = (m if k == 0 else 2 * m) - leave[k]          # marked cells are active ones: children of the previously marked, minus the last few
+        keep = list(range(m))
+        cells = [list(t) for t in itertools.product(keep, repeat=dim)]
+        hist.append({str(k): cells})
+    return dict(base, history=hist)
 
 
 def chk_virtual_thb(c):
@@ -277,7 +355,7 @@ def chk_boundary(c):
         _close(_hb_values(hb, u[idx], gridb), vals, 'boundary(%r): trace differs' % (bd,))
 
 
-CHECKS = {'virtual_thb': chk_virtual_thb, 'adaptive': chk_adaptive, 'insert': chk_insert, 'prolong': chk_prolong, 'represent': chk_represent, 'prolongate_to': chk_prolongate_to, 'virtual': chk_virtual,
+CHECKS = {'virtual_thb': chk_virtual_thb, 'adaptive': chk_adaptive, 'insert': chk_insert, 'prolong': chk_prolong, 'represent': chk_represent, 'represent_lv': chk_represent_lv, 'prolongate_to': chk_prolongate_to, 'virtual': chk_virtual,
           'boundary': chk_boundary}
 
 
@@ -301,6 +379,11 @@ def generate(tier, rng):
             yield 'prolong', {'p': p, 'kv': kv, 'new': 'uniform'}
             new = [(m[0] * 2 + m[1]) / 3] + [float(t) for t in m[1:-1] if np.sum(kva == t) < max(p, 1)][:1]
             yield 'prolong', {'p': p, 'kv': kv, 'new': new}
+    # the smallest spaces (one or two basis functions), always
+    for p, kv in ((0, [0.0, 1.0]), (0, [0.0, 0.5, 1.0]), (1, [0.0, 0.0, 1.0, 1.0]), (0, [2.0, 5.0])):
+        yield 'prolong', {'p': p, 'kv': kv, 'new': 'uniform'}
+        yield 'prolong', {'p': p, 'kv': kv, 'new': [kv[0] + 0.3 * (kv[-1] - kv[0])]}
+        yield 'prolong', {'p': p, 'kv': kv, 'new': [kv[0] + 0.3 * (kv[-1] - kv[0]), kv[0] + 0.8 * (kv[-1] - kv[0])]}
     # ---- THB virtual-hierarchy prolongators: a fixed, deterministic list of histories (exhaustive 1D, depth <= 3, single marked cells and pairs)
     det = hgen.enumerate_histories({'dim': 1, 'n': 2, 'p': 1}, 3, max_subset=2, cap=None, rng=None)
     for k, h in enumerate(det):
@@ -320,6 +403,7 @@ def generate(tier, rng):
             spec = dict(h, **cfg)
             H = len(spec['history'])
             yield 'represent', {'spec': spec}
+            yield 'represent_lv', {'spec': spec}
             yield 'virtual', {'spec': spec}
             if H >= 2:
                 yield 'adaptive', {'spec': spec}
@@ -334,6 +418,7 @@ def generate(tier, rng):
         spec = dict(h, p=min(cfg['p'], 2), disparity=cfg['disparity'])
         H = len(spec['history'])
         yield 'represent', {'spec': spec}
+        yield 'represent_lv', {'spec': spec}
         yield 'virtual', {'spec': spec}
         yield 'prolongate_to', {'spec': spec, 'k': 0, 'm': H}
         yield 'prolongate_to', {'spec': spec, 'k': 1, 'm': H}
@@ -355,6 +440,13 @@ def generate(tier, rng):
             yield 'represent', {'spec': h}
             yield 'prolongate_to', {'spec': h, 'k': 0, 'm': 2}
             yield 'virtual', {'spec': h}
+    # almost global refinement (few coarse functions survive: represent_fine takes its row-restricted branch), all levels and row selections
+    for base, steps, leave in (({'dim': 1, 'n': 4, 'p': 2}, 2, (1, 2)), ({'dim': 1, 'n': 4, 'p': 1}, 3, (1, 2, 3)), ({'dim': 1, 'n': 6, 'p': 3}, 2, (1, 2)),
+                               ({'dim': 2, 'n': 3, 'p': 1}, 2, (1, 1)), ({'dim': 2, 'n': 4, 'p': 2}, 2, (1, 2)), ({'dim': 1, 'n': 5, 'p': 2, 'disparity': 1}, 3, (1, 2, 4))):
+        h = _near_global(base, steps, leave)
+        yield 'represent', {'spec': h}
+        yield 'represent_lv', {'spec': h}
+        yield 'virtual', {'spec': h}
     for j in range(10 if quick else 60):
         d = [2, 1, 'inf'][j % 3]
         base = {'dim': 1, 'n': 3, 'p': 1 + j % 3, 'disparity': d}
